@@ -305,6 +305,14 @@ func c05AsmKeySchedule(r *Report, u *AsmUnit, arch string) {
 	}
 	rt = rt.UnrollConstLoops()
 	flow := AnalyzeFlow(rt)
+	if arch == "amd64" {
+		// the round keys must be a function of the key alone (REGISTER-DEFINED, see lanes.go / DESIGN 10.15)
+		if undef := VecDefBeforeUse(rt, flow); len(undef) > 0 {
+			r.Viol("REGISTER-DEFINED", "amd64/expandKeyAsm", "sm4/"+rt.File, undef[0])
+		} else {
+			r.Ok("REGISTER-DEFINED", "amd64/expandKeyAsm", "sm4/"+rt.File, "every vector register is written before it is read on every path")
+		}
+	}
 	con := asmContracts(arch)["expandKeyAsm"]
 	dataSize := map[string]int{}
 	for _, d := range u.DataSyms() {
